@@ -1235,3 +1235,39 @@ Section OwnPass.
     destruct (os_deleting mem0 || lifecycle_eqb (os_life mem0) LArchived); [apply deletion_pass_OT|apply active_pass_OT].
   Qed.
 End OwnPass.
+
+(** The stored status after a pass of the ObjectSet controller, in closed form: every ObjectSet afterwards is an old one, or the
+    ObjectSet of the pass with its identity, lifecycle state and phases, where Paused=True is only ever newly written for a paused
+    spec, and status.controllerOf is the old list, empty, or the list computed by the phase loop of this pass. *)
+Definition loop_ctrlof (force : bool) (sw0 : sworld) (mem0 : oset) (ctrlof : list okey) : Prop :=
+  exists mem1 sw1 sw2 pevs rem failed,
+    os_id mem1 = os_id mem0 /\ os_life mem1 = os_life mem0 /\ os_phases mem1 = os_phases mem0 /\
+    w_store (sw_w sw1) = w_store (sw_w sw0) /\
+    reconcile_phases_m force sw1 mem1 (as_owner mem1) (lookup_prev (sw_sets sw1) mem1) (os_phases mem1) [] (os_remotes mem1)
+      = (sw2, pevs, rem, MOk ctrlof failed).
+
+Theorem status_after_pass force sw k ns n mem0 sw' evs r :
+  find_set (sw_sets sw) k ns n = Some mem0 -> NoDup (map (fun y => oi_name (os_id y)) (sw_sets sw)) ->
+  objectset_pass force sw k ns n = (sw', evs, r) ->
+  forall y, In y (sw_sets sw') ->
+    In y (sw_sets sw) \/
+    (os_id y = os_id mem0 /\ os_life y = os_life mem0 /\ os_phases y = os_phases mem0 /\ os_prev y = os_prev mem0 /\
+     (cond_true (os_conds y) CPaused = true -> cond_true (os_conds mem0) CPaused = true \/ os_life mem0 = LPaused) /\
+     (os_ctrlof y = os_ctrlof mem0 \/ os_ctrlof y = [] \/ loop_ctrlof force sw mem0 (os_ctrlof y))).
+Proof.
+  intros Hf Hnd Hp y Hy.
+  assert (Hext : forall a b : oset, os_ctrlof a = os_ctrlof b -> os_revision a = os_revision b ->
+                 loop_ctrlof force sw mem0 (os_ctrlof a) -> loop_ctrlof force sw mem0 (os_ctrlof b)) by (intros a b E _; now rewrite E).
+  assert (Hfinal : forall mem1 sw1 sw2 pevs rem ctrlof failed,
+            IM mem0 mem1 -> os_revision mem1 <> 0%Z -> w_store (sw_w sw1) = w_store (sw_w sw) ->
+            dup_count [] (map (spec_key mem1) (all_objects mem1)) = O ->
+            reconcile_phases_m force sw1 mem1 (as_owner mem1) (lookup_prev (sw_sets sw1) mem1) (os_phases mem1) [] (os_remotes mem1)
+              = (sw2, pevs, rem, MOk ctrlof failed) ->
+            forall m, os_ctrlof m = ctrlof -> os_revision m = os_revision mem1 -> loop_ctrlof force sw mem0 (os_ctrlof m)).
+  { intros mem1 sw1 sw2 pevs rem ctrlof failed ((A & B & C & _) & _) _ Hst _ Hrp m -> _.
+    unfold loop_ctrlof. exists mem1, sw1, sw2, pevs, rem, failed. auto 6. }
+  destruct (objectset_pass_OT force sw k ns n mem0 Hf Hnd (fun m => loop_ctrlof force sw mem0 (os_ctrlof m)) Hext Hfinal sw' evs r Hp y Hy)
+    as [Hold|((A & B & C & D) & Hpf & Hs)]; [now left|right].
+  do 4 (split; [assumption|]). split; [exact Hpf|].
+  destruct Hs as [(E & _)|[(E & _)|[E|E]]]; auto.
+Qed.
